@@ -2,8 +2,8 @@
 
 One-step induction over the private-key state machine plus RFC 8554 equivalence
 of the Winternitz / Merkle layers, decided by Kani (CBMC + CaDiCaL) on the real
-code of src/lms.rs, hashes replaced by deterministic mixers.  See
-engines/kani/NOTES_C16.md."""
+code of src/lms.rs, hashes replaced by deterministic stand-ins.  See
+engines/kani/NOTES_C16.md for the harness list, bounds, stubs and timings."""
 import json, os, shutil, time
 from engines.kani.runner import HDIR, Insert, prepare, run_harnesses, replay as kreplay
 from vlib.common import Obligation, finish, log
@@ -18,54 +18,125 @@ SETS = [
     ("shakem24", "lms_shakem24.rs", "LMS_SHAKE_M24_H5_SHAKE_N24_W8"),
     ("shakem32", "lms_shakem32.rs", "LMS_SHAKE_M32_H5_SHAKE_N32_W8"),
 ]
+ALL = tuple(s[0] for s in SETS)
 
-# harness -> (role key, functions, claim, bounds, quick cap, thorough cap, tiers)
+# CBMC's own pointer/overflow instrumentation and Kani's per-assertion
+# reachability checks are switched off: src/lms.rs is safe Rust, Rust's own
+# bounds/overflow/unwrap panics stay in as assertions, vacuity is guarded by
+# explicit kani::cover! statements; with them a harness costs 2-3x more.
+KARGS = ("-Z", "unstable-options", "--no-assertion-reach-checks", "--no-memory-safety-checks",
+         "--no-overflow-checks")
+
+# harness -> description; "quick"/"thorough": sets it runs on in that tier; cap: (quick, thorough) seconds;
+# "weight": scheduling order (heaviest first); "deep": twin harness with full unwinding used when the
+# shallow one stops at an unwinding assertion or fails
 H = {
-    "verif_lms_params": dict(
-        fn=["n/m/w/h/p/ls/key_type/ots_type/ots_siglen/lms_siglen", "make_p_ls", "PrivateKey::compute_public"],
-        desc="parameter-set constants equal the RFC 8554 / SP 800-208 table values; p, ls follow RFC 8554 4.1; "
-             "compute_public returns (I, T[1])",
-        bounds="closed constants; key bytes symbolic", cap=(150, 600), tiers=("quick", "thorough")),
-    "verif_lms_coef_cksm": dict(
-        fn=["coef", "checksum"],
-        desc="coef(S,i) == i-th w-bit field (bit by bit) for all (n+2)-byte S and all i < p; "
-             "checksum(Q) == RFC 8554 4.4 Cksm for all n-byte Q",
-        bounds="all Q, all S, all i < p", cap=(150, 600), tiers=("quick", "thorough")),
-    "verif_lms_sign_state": dict(
-        fn=["PrivateKey::sign"],
-        desc="from ANY key state (current_leaf any u32, I/SEED/T arbitrary): None iff current_leaf >= 2^h and then "
-             "state bit-identical and RNG untouched; else q bytes == OLD index (big-endian), current_leaf == old+1, "
-             "state already advanced when the RNG is first called, I/SEED/T unchanged, embedded LM-OTS signature == "
-             "ots_sign(old, msg), LMS type word",
-        bounds="msg 3 symbolic bytes; ots_sign replaced by a deterministic mixer of (I,q,SEED,C,msg)",
-        cap=(240, 1800), tiers=("quick", "thorough")),
-    "verif_lms_sign_path_all": dict(
-        fn=["PrivateKey::sign"],
-        desc="for every leaf q in 0..2^h (concrete) and an arbitrary tree: path[i] == T[((2^h+q)>>i)^1] for i < h "
-             "(RFC 8554 5.4.1), q word, type word, current_leaf == q+1",
-        bounds="all 32 leaves, tree/I/SEED symbolic, msg 2 symbolic bytes; ots_sign replaced by mixer",
-        cap=(240, 1800), tiers=("quick", "thorough")),
-    "verif_lms_ots_sign_ref": dict(
-        fn=["PrivateKey::ots_sign", "PrivateKey::make_ots_x", "coef", "checksum"],
-        desc="ots_sign(q, msg) == RFC 8554 Algorithm 3 (type || C || y[i] = F^{a_i}(x_i), a = coef(Q||Cksm(Q))) for "
-             "any q: u32, any I/SEED/C, exactly one RNG draw of n bytes",
-        bounds="msg 3 symbolic bytes; chains <= 255 steps (unwind 256); Hn = deterministic mixer",
-        cap=(240, 1800), tiers=("quick", "thorough")),
-    "verif_lms_verify_ref": dict(
+    "verif_lms_verify_ref_cff": dict(
         fn=["PublicKey::verify", "PublicKey::ots_verify", "coef", "checksum"],
         desc="verify(sig, msg) == RFC 8554 Algorithms 6/6a/4b for ALL signature strings of length lms_siglen "
-             "(q range, both type words, chains, Merkle path, full-width root comparison)",
-        bounds="all lms_siglen-byte strings, msg 3 symbolic bytes, I/T1 symbolic; Hn/Hm/Hnx = deterministic mixers",
-        cap=(240, 1800), tiers=("quick", "thorough")),
+             "(q range, both type words, C / y[i] / path offsets, chain start and end, Merkle parity order, "
+             "full-width root comparison), message hash Q = FF..FF (coefficients 255, checksum chains run 255 steps)",
+        bounds="all lms_siglen-byte strings, all I/T1, msg 3 symbolic bytes; chain lengths fixed by Q = FF..FF",
+        quick=(), thorough=ALL, cap=(0, 1500), weight=190),
+    "verif_lms_verify_layer": dict(
+        fn=["PublicKey::verify"],
+        desc="the LMS layer of verify == RFC 8554 Algorithm 6/6a for ALL signature strings of length lms_siglen: q "
+             "range, LMS type word, (q, sig[4..4+ots_siglen], msg) handed to the LM-OTS layer, rejection when it "
+             "rejects, leaf hash, path offsets, parity order, full-width root comparison; the LM-OTS layer "
+             "(ots_verify / RFC Alg. 4b) is replaced on both sides by one deterministic stand-in",
+        bounds="all lms_siglen-byte strings, all I/T1, msg 3 symbolic bytes; no Winternitz chain executed",
+        quick=ALL, thorough=ALL, cap=(200, 600), weight=50),
+    "verif_lms_ots_sign_ref_c00": dict(
+        fn=["PrivateKey::ots_sign", "PrivateKey::make_ots_x", "coef", "checksum"],
+        desc="ots_sign(q, msg) == RFC 8554 Algorithm 3 (type || C || y[i] = F^{a_i}(x_i), a = coef(Q||Cksm(Q))) for "
+             "any q: u32, any I/SEED/C, exactly one RNG draw of n bytes; message hash Q = 00..00 "
+             "(coefficients 0, checksum chains run 31 and 224 steps)",
+        bounds="all I/SEED/q/C, msg 3 symbolic bytes; chain lengths fixed by Q = 00..00",
+        quick=("shakem24",), thorough=ALL, cap=(280, 1500), weight=150),
+    "verif_lms_sign_path_q8": dict(
+        fn=["PrivateKey::sign"],
+        desc="for leaves 0,1,2,10,21,29,30,31 and an arbitrary tree: q word == old index, current_leaf == old+1 already "
+             "when the RNG is first called, I/SEED/T unchanged, embedded LM-OTS signature == ots_sign(old,msg), "
+             "type word, path[i] == T[((2^h+q)>>i)^1] for i < h (RFC 8554 5.4.1)",
+        bounds="8 concrete leaves, tree/I/SEED/randomness symbolic, msg 2 symbolic bytes; ots_sign replaced by stand-in",
+        quick=ALL, thorough=(), cap=(240, 900), weight=100),
+    "verif_lms_sign_path_all": dict(
+        fn=["PrivateKey::sign"],
+        desc="same as sign_path_q8 for every leaf 0..2^h-1",
+        bounds="all 32 leaves (concrete), tree/I/SEED/randomness symbolic, msg 2 symbolic bytes",
+        quick=(), thorough=ALL, cap=(240, 1500), weight=300),
+    "verif_lms_sign_exhausted": dict(
+        fn=["PrivateKey::sign"],
+        desc="ANY current_leaf >= 2^h (symbolic u32), arbitrary I/SEED/T: sign returns None, twice; state "
+             "bit-identical; RNG never called; ots_sign never reached",
+        bounds="all u32 >= 32; msg 3 symbolic bytes",
+        quick=ALL, thorough=ALL, cap=(200, 900), weight=60),
+    "verif_lms_sign_state_anytree": dict(
+        fn=["PrivateKey::sign"],
+        desc="one step from ANY state with current_leaf fully symbolic (exhausted or not) and an arbitrary tree: "
+             "None iff current_leaf >= 2^h; else q word, increment-before-RNG, state preservation, all "
+             "ots_siglen embedded bytes, type word",
+        bounds="current_leaf any u32, tree symbolic (symbolic authentication-path copy, ~15M clauses)",
+        quick=(), thorough=ALL, cap=(240, 2000), weight=400),
+    "verif_lms_sign_state_tree0": dict(
+        fn=["PrivateKey::sign"],
+        desc="same as sign_state_anytree with the tree fixed to zero and the embedded signature compared at both ends",
+        bounds="current_leaf any u32, tree constant",
+        quick=(), thorough=ALL, cap=(240, 900), weight=120),
+    "verif_lms_params_coef": dict(
+        fn=["n/m/w/h/p/ls/key_type/ots_type/ots_siglen/lms_siglen", "make_p_ls", "coef", "checksum",
+            "PrivateKey::compute_public"],
+        desc="parameter-set constants equal the RFC 8554 / SP 800-208 table values; p, ls follow RFC 8554 4.1; "
+             "coef(S,i) == i-th w-bit field (bit by bit) for all (n+2)-byte S and all i < p; checksum(Q) == RFC 8554 "
+             "4.4 Cksm for all n-byte Q; compute_public returns (I, T[1])",
+        bounds="all Q, all S, all i < p; key bytes symbolic", quick=ALL, thorough=ALL, cap=(200, 600), weight=40),
+    "verif_lms_verify_reject_shallow": dict(
+        fn=["PublicKey::verify", "PublicKey::ots_verify"],
+        desc="for ANY public key and ANY signature bytes: verify rejects lengths lms_siglen+-1, +-m, 2*lms_siglen, "
+             "ots_siglen+8, ots_siglen+4, 8, 7, 4, 3, 0; q >= 2^h; any LM-OTS type word != ots_type; any LMS type "
+             "word != key_type -- all before any hash is computed (unwinding 3 suffices)",
+        bounds="12 concrete lengths, all bytes symbolic; all wrong words", quick=ALL, thorough=ALL,
+        cap=(200, 600), weight=30, deep="verif_lms_verify_reject_deep", deep_cap=(900, 1800)),
+    "verif_lms_ots_sign_ref_q1": dict(
+        fn=["PrivateKey::ots_sign", "coef", "checksum"],
+        desc="ots_sign == RFC 8554 Algorithm 3 with one SYMBOLIC Winternitz coefficient (Q = 01..01 except Q[5] "
+             "symbolic, hence symbolic checksum digits): chains of symbolic length",
+        bounds="Q[5] and both checksum coefficients symbolic, others 1", quick=(), thorough=("s256m32", "shakem24"),
+        cap=(0, 2300), weight=900),
+    "verif_lms_verify_ref_q1": dict(
+        fn=["PublicKey::verify", "PublicKey::ots_verify", "coef", "checksum"],
+        desc="verify == RFC 8554 Algorithms 6/6a/4b with one SYMBOLIC Winternitz coefficient (Q = FE..FE except Q[5])",
+        bounds="Q[5] and both checksum coefficients symbolic, others 254", quick=(), thorough=("s256m32", "shakem24"),
+        cap=(0, 2300), weight=1000),
+    "verif_lms_chain_fast_eq": dict(
+        fn=["(machinery) ref_chain_fast == ref_chain under the stand-in hash"],
+        desc="the closed form that replaces the reference Winternitz chain under Kani equals the reference chain run "
+             "with the stand-in hash, ranges 0..255, 0..31, 255..255",
+        bounds="all I/q/i/start", quick=(), thorough=("s256m32", "shakem24"), cap=(0, 1200), weight=200),
+    "verif_lms_chain_fast_eq_sym": dict(
+        fn=["(machinery) ref_chain_fast == ref_chain under the stand-in hash"],
+        desc="same with a symbolic entry / exit point",
+        bounds="from in 0..=255 symbolic", quick=(), thorough=("s256m32",), cap=(0, 2000), weight=600),
 }
 
 STUBS = {
-    "Hn / Hm / Hnx -> hn_mix / hm_mix / hnx_mix": "fixed deterministic position-sensitive byte mixers (functional "
-        "consistency only; every byte and length of every argument influences the output); collision resistance "
-        "is outside the claim (C17 decides that the real functions are SHA-256/SHAKE256)",
-    "PrivateKey::ots_sign -> ots_sign_mix (sign_state, sign_path only)": "draws C from the RNG like the real function, "
-        "returns a deterministic mix of (I,q,SEED,C,msg); the real ots_sign is decided by verif_lms_ots_sign_ref",
-    "RNG": "harness type VRng (tape symbolic); records calls and current_leaf at first call",
+    "Hn -> hn_00 / hn_ff / hn_lo / hn_hi": "deterministic stand-in. Chain step and x[i] derivation: input carried "
+        "over, byte 0 += (j|1), byte 1 ^= digest(I,q,i) on the steps j in {0,254,255}. Message hash: Q constant "
+        "(00..00 for signing, FF..FF for verification; thorough tier: one symbolic byte). Functional consistency "
+        "only; collision resistance is outside the claim (C17 decides that the real functions are SHA-256/SHAKE256)",
+    "Hm -> hm_lean, Hnx -> hnx_lean": "deterministic, order-sensitive lane mixers over all inputs",
+    "PrivateKey::ots_sign -> ots_sign_pool (sign_path_*, sign_state_*)": "draws C from the RNG like the real function "
+        "and returns harness-chosen arbitrary bytes with type word, C and a digest of (I,q,SEED,msg) written in; the "
+        "real ots_sign is decided by ots_sign_ref_*",
+    "PrivateKey::ots_sign -> ots_sign_never (sign_exhausted)": "assert!(false); assume(false)",
+    "PublicKey::ots_verify and ref_ots_kc -> kc_standin (verify_layer only)": "None iff length or type word wrong, "
+        "else a digest of (I, q, first/second/middle/last block of the LM-OTS signature, msg); the real ots_verify "
+        "is decided inside verify_ref_* (thorough tier) and by verify_reject_*",
+    "ref_chain -> ref_chain_fast": "reference-side Winternitz chain in closed form under the stand-in hash "
+        "(decided equal by chain_fast_eq*, thorough tier)",
+    "honest -> honest_any, is_native -> false": "under Kani the (public key, signature) pair is ARBITRARY; in native "
+        "replay it is generated honestly (RFC 8554 key generation on the leaf's path + the library's sign)",
+    "RNG": "harness type VRng (tape symbolic); records calls and the key's current_leaf at the first call",
 }
 
 
@@ -81,31 +152,49 @@ def sel(tag, k, name):
     return "verif_lms_%s_%d::%s" % (tag, k, name)
 
 
+def _short(name):
+    return name[len("verif_lms_"):]
+
+
 def run(tier, only=None):
     t0 = time.time()
+    ti = 0 if tier == "quick" else 1
     inserts = [Insert("src/lms.rs", os.path.join(HDIR, f), module=mod) for _, f, mod in SETS]
     sc = prepare(inserts)
     shutil.copy(os.path.join(HDIR, BODY), os.path.join(sc.src, "src", "verif_h", BODY))
     items = []
     for k, (tag, f, mod) in enumerate(SETS):
         for name, d in H.items():
-            if tier not in d["tiers"]:
+            if only:
+                if not any(_match(o, tag, name) for o in only):
+                    continue
+            elif tag not in d["quick" if tier == "quick" else "thorough"]:
                 continue
-            if only and not any(_match(o, tag, name) for o in only):
-                continue
-            cap = d["cap"][0 if tier == "quick" else 1]
+            cap = d["cap"][ti] or d["cap"][1]
             items.append((tag, k, f, mod, name, d, cap))
+    items.sort(key=lambda it: -it[5]["weight"])
     res = run_harnesses(sc, [(sel(tag, k, name), cap) for tag, k, f, mod, name, d, cap in items],
-                        mem_gb=12, jobs=8)
+                        mem_gb=14, jobs=8, extra_args=KARGS)
+    # escalation: a shallow harness that did not close is re-run with full unwinding
+    esc = [(tag, k, name, d) for tag, k, f, mod, name, d, cap in items
+           if d.get("deep") and res[sel(tag, k, name)].status in ("unwind", "failure")]
+    if esc:
+        log("[C16] escalating %d shallow harness(es) to full unwinding" % len(esc))
+        res2 = run_harnesses(sc, [(sel(tag, k, d["deep"]), d["deep_cap"][ti]) for tag, k, name, d in esc],
+                             mem_gb=14, jobs=8, extra_args=KARGS)
+        for tag, k, name, d in esc:
+            r2 = res2[sel(tag, k, d["deep"])]
+            r2.seconds += res[sel(tag, k, name)].seconds
+            res[sel(tag, k, name)] = r2
     obs, merr = [], None
     for tag, k, f, mod, name, d, cap in items:
         r = res[sel(tag, k, name)]
-        ob = Obligation("%s:%s" % (tag, name[len("verif_lms_"):]), "K",
+        ob = Obligation("%s:%s" % (tag, _short(name)), "K",
                         ["%s::%s" % (mod, x) for x in d["fn"]], d["bounds"], d["desc"])
-        log("[C16] %-9s %-28s %-8s %6.1fs covers=%s %s" % (tag, name, r.status, r.seconds, r.covers,
-                                                          "; ".join(r.failed[:2])))
+        log("[C16] %-9s %-32s %-8s %6.1fs covers=%s %s" % (tag, name, r.status, r.seconds, r.covers,
+                                                          "; ".join(r.failed[:2])[:300]))
         if r.status == "success":
-            if r.unsat_covers or r.covers[0] != r.covers[1]:
+            if r.unsat_covers or r.covers[0] != r.covers[1] or r.covers[1] == 0:
                 ob.unknown("vacuity guard not reached: %s" % r.unsat_covers[:3], "kani", r.seconds)
                 merr = "cover unreachable in %s:%s: %s" % (tag, name, r.unsat_covers[:3])
             else:
@@ -113,24 +202,38 @@ def run(tier, only=None):
         elif r.status == "failure":
             kreplay(sc, r, f)
             if r.replayed is True:
-                ob.fail({"key": "%s:%s" % (tag, name[len("verif_lms_"):]), "module": mod, "harness": name,
+                ob.fail({"key": "%s:%s" % (tag, _short(name)), "module": mod, "harness": r.name,
                          "failed_checks": r.failed[:8], "playback": r.playback}, "kani+native playback", r.seconds)
             else:
-                ob.unknown("counterexample lives only under a stub / does not reproduce natively (%s): %s"
-                           % (r.replayed, "; ".join(r.failed[:3])), "kani", r.seconds)
+                ob.unknown("counterexample lives only under a stub / does not reproduce natively (replayed=%s): %s"
+                           % (r.replayed, "; ".join(r.failed[:3])[:400]), "kani", r.seconds)
         else:
             ob.unknown("%s: %s" % (r.status, r.log_tail[-300:].replace("\n", " | ")), "kani", r.seconds)
         obs.append(ob)
     sc.remove()
+    posed = sorted(set((tag, _short(name)) for tag, k, f, mod, name, d, cap in items))
+    notposed = sorted("%s:%s" % (tag, _short(name)) for name, d in H.items() for tag in ALL
+                      if tag in d["thorough"] and (tag, _short(name)) not in posed)
     return finish(PID, tier, obs, t0,
                   functions_encoded=sorted(set(fn for o in obs for fn in o.functions)),
                   bounds={"parameter sets": [s[2] for s in SETS], "message": "2-3 symbolic bytes",
-                          "unwind": "256 = 2^w (Winternitz chain), 1126 = ots_siglen+2 (mixer loop)"},
+                          "unwind": "256 = 2^w (Winternitz chain); 66 = 2^(h+1)+2; 1126 = ots_siglen+2; 3 (reject_shallow)",
+                          "winternitz coefficients": "fixed by the message-hash stand-in (00..00 / FF..FF); thorough "
+                                                     "tier: one symbolic coefficient plus its checksum digits"},
                   stubs=STUBS,
-                  assumptions=["Kani 0.68 / CBMC 6 semantics of MIR", "hash stand-ins are deterministic functions "
-                               "(functional consistency); no collision-resistance claim"],
+                  assumptions=["Kani 0.68 / CBMC 6.11 semantics of MIR; CBMC pointer/overflow instrumentation and "
+                               "assertion-reachability checks off (safe Rust; Rust's own panics stay assertions)",
+                               "hash stand-ins are deterministic functions (functional consistency); no "
+                               "collision-resistance claim",
+                               "acceptance of honest signatures follows by composing ots_sign == RFC Alg. 3, "
+                               "sign path == RFC 5.4.1, verify == RFC Alg. 6 with RFC 8554's own correctness argument "
+                               "(F^(255-a) o F^a = F^255); it is exercised directly only in native replays"],
                   outside=["collision / preimage resistance (rejection of other messages and of altered hash-chain "
-                           "bytes rests on it)", "compute_tree over the full tree with real hashes"],
+                           "bytes rests on it: verify is shown equal to the RFC predicate, not unforgeable)",
+                           "compute_tree / generate (277k hash calls); the tree is arbitrary or honest-on-the-path",
+                           "all Winternitz coefficients symbolic at once (CBMC: > 50M statements)",
+                           "w in {1,2,4}: no such parameter set is instantiated",
+                           "in this tier not posed (thorough only): " + ", ".join(notposed)],
                   machinery_error=merr)
 
 
@@ -140,4 +243,4 @@ def replay(path):
     ob = d["obligation"]
     tag, name = ob["name"].split(":", 1)
     log("[C16] re-running %s on the current tree" % ob["name"])
-    return run("thorough", only=None if not name else [name + "@" + tag])
+    return run("thorough", only=["%s@%s" % (name, tag)])
